@@ -45,6 +45,7 @@ type treeOp struct {
 }
 
 type treeCase struct {
+	First []treeFile `json:"first"` // a healthy tree loaded first in the same directory; Files then replaces it
 	Files []treeFile `json:"files"`
 	Cfg   treeCfg    `json:"cfg"`
 	Load  loadExpect `json:"load"`
@@ -65,6 +66,12 @@ func setupTree(files []treeFile, cfg treeCfg) (root string, err error) {
 	if err = os.MkdirAll(root, 0o755); err != nil {
 		return
 	}
+	err = writeTree(root, files, cfg)
+	return
+}
+
+// writeTree writes the files under root and chdirs there.
+func writeTree(root string, files []treeFile, cfg treeCfg) (err error) {
 	for _, f := range files {
 		p := f.Path
 		if p == "" {
@@ -88,6 +95,21 @@ func setupTree(files []treeFile, cfg treeCfg) (root string, err error) {
 	}
 	err = os.Chdir(root)
 	return
+}
+
+// replaceTree empties the directory and writes other files into it (the same paths as before, as far as they remain).
+func replaceTree(root string, files []treeFile, cfg treeCfg) error {
+	os.Chdir("/")
+	entries, err := os.ReadDir(root)
+	if err != nil {
+		return err
+	}
+	for _, e := range entries {
+		if err := os.RemoveAll(filepath.Join(root, e.Name())); err != nil {
+			return err
+		}
+	}
+	return writeTree(root, files, cfg)
 }
 
 func cleanupTree(root string) {
@@ -118,12 +140,28 @@ func treeFamily(raw json.RawMessage) Result {
 		return Result{ID: caseID(raw), Status: "skip", Msg: err.Error()}
 	}
 	res := Result{ID: treeID(c), Status: "ok", Tags: c.Tags, Stats: map[string]int{}}
-	root, err := setupTree(c.Files, c.Cfg)
+	first := c.Files
+	if len(c.First) > 0 {
+		first = c.First
+	}
+	root, err := setupTree(first, c.Cfg)
 	if err != nil {
 		res.Status, res.Msg = "skip", err.Error()
 		return res
 	}
 	defer cleanupTree(root)
+	if len(c.First) > 0 {
+		// the directory was healthy and loaded a moment ago; what is loaded now is what is on disk now
+		textwire.VerifReset()
+		if _, lerr := textwire.NewTemplate(&config.Config{TemplateDir: c.Cfg.Dir, TemplateExt: c.Cfg.Ext}); lerr != nil {
+			res.Status, res.Msg = "skip", "the healthy tree does not load: "+lerr.Error()
+			return res
+		}
+		if err := replaceTree(root, c.Files, c.Cfg); err != nil {
+			res.Status, res.Msg = "skip", err.Error()
+			return res
+		}
+	}
 	textwire.VerifReset()
 	tpl, lerr := textwire.NewTemplate(&config.Config{TemplateDir: c.Cfg.Dir, TemplateExt: c.Cfg.Ext,
 		ErrorPagePath: c.Cfg.ErrorPage, DebugMode: c.Cfg.Debug})
